@@ -31,6 +31,34 @@ Rank(rows) ==
                 rest == [i \in DOMAIN Tail(rows) |-> Elim(Tail(rows)[i], r, p)]
             IN 1 + Rank(rest)
 
+(* The same rank without the (exponentially large) Hankel block: rank H = rank(F B^T), where the rows of F span the  *)
+(* forward vectors alpha_w = I A_w1 ... A_wn and the rows of B the backward vectors beta_w = A_w1 ... A_wn F; both  *)
+(* spans are built by closing {I} (resp. {F}) under the symbol matrices with Gaussian reduction (at most n vectors). *)
+(* For epsilon-free automata.                                                                                        *)
+VecI(A) == [q \in 1 .. A.n |-> WI("Rat", A, q - 1)]
+VecF(A) == [q \in 1 .. A.n |-> WF("Rat", A, q - 1)]
+ArcW(A, p, a, q) == SumSeq("Rat", [r \in DOMAIN A.arcs |->
+                       IF A.arcs[r][1] = p /\ A.arcs[r][2] = a /\ A.arcs[r][3] = q THEN A.arcs[r][4] ELSE RZero])
+StepF(A, v, a) == [q \in 1 .. A.n |-> SumSeq("Rat", [p \in 1 .. A.n |-> RMul(v[p], ArcW(A, p - 1, a, q - 1))])]
+StepB(A, v, a) == [p \in 1 .. A.n |-> SumSeq("Rat", [q \in 1 .. A.n |-> RMul(ArcW(A, p - 1, a, q - 1), v[q])])]
+RECURSIVE ReduceBy(_, _)
+ReduceBy(v, basis) == IF basis = <<>> THEN v ELSE ReduceBy(Elim(v, Head(basis), Pivot(Head(basis))), Tail(basis))
+RECURSIVE CloseSpan(_, _, _, _, _)
+CloseSpan(A, syms, fwd, basis, frontier) ==
+  IF frontier = <<>> THEN basis
+  ELSE LET v == Head(frontier)
+           r == ReduceBy(v, basis)
+       IN IF RowZero(r) THEN CloseSpan(A, syms, fwd, basis, Tail(frontier))
+          ELSE CloseSpan(A, syms, fwd, Append(basis, r),
+                         Tail(frontier) \o [i \in DOMAIN syms |-> IF fwd THEN StepF(A, v, syms[i]) ELSE StepB(A, v, syms[i])])
+Dot(u, v) == SumSeq("Rat", [i \in DOMAIN u |-> RMul(u[i], v[i])])
+HankelRankFast(A) ==
+  IF A.n = 0 THEN 0
+  ELSE LET syms == SetToSeq(Alphabet(A))
+           Fb == CloseSpan(A, syms, TRUE, <<>>, <<VecI(A)>>)
+           Bb == CloseSpan(A, syms, FALSE, <<>>, <<VecF(A)>>)
+       IN Rank([i \in DOMAIN Fb |-> [j \in DOMAIN Bb |-> Dot(Fb[i], Bb[j])]])
+
 HankelRank(A, Sigma) ==
   LET ws == SetToSeq(Strs(Sigma, IF A.n = 0 THEN 0 ELSE A.n - 1))
   IN Rank([u \in DOMAIN ws |-> [v \in DOMAIN ws |-> AWeight("Rat", A, ws[u] \o ws[v])]])
